@@ -617,7 +617,8 @@ hwloc__osdev_type_snprintf_normal(char * __hwloc_restrict string, size_t size,
   tmp += res;
   tmplen -= res;
 
-  while (ostype) {
+  if (ostype) {
+    /* a single pass prints and clears every known bit; unknown bits (e.g. from XML) have no name */
     unsigned i;
     for(i=0; i<_HWLOC_OSDEV_TYPE_NAMES_NR; i++) {
       if (ostype & names[i].type) {
